@@ -28,6 +28,13 @@ def page_free_pairs():
 def collect_retired_pair():
     return dict(name="collect_retired", entry="h_collect_retired", harness="harness/page_free.c", enforce="_mi_heap_collect_retired", label="P", functions=["_mi_heap_collect_retired"], timeout=600, unwind=80, objbits=10,
                 loops="loops/collect_retired.json", need_ids=["loop_invariant_step"], replace=["_mi_page_free/c_page_free_rec"], unwindset={"h_collect_retired.0": 80})
+def first_update_pairs():
+    # one run per queue bin (literal): bins 1..33 are the small size classes (block size <= 1024) that have table entries, 34 and 74 (full) must leave the table alone
+    out = []
+    for qb in list(range(1, 35)) + [73, 74]:
+        out.append(dict(name="first_update_bin%d" % qb, entry="h_first_update", harness="harness/first_update.c", enforce="mi_heap_queue_first_update", label="PC", functions=["mi_heap_queue_first_update"],
+                        timeout=600, unwind=132, objbits=10, replace=[], defs=["-DVC_QBIN=%d" % qb], tier=("quick" if qb in (1, 2, 9, 20, 33, 34) else "thorough")))
+    return out
 def page_abandon_pair():
     return dict(name="page_abandon", entry="h_page_abandon", harness="harness/page_free.c", enforce="_mi_page_abandon", label="P", functions=["_mi_page_abandon"], timeout=300, unwind=20, objbits=10,
                 replace=["mi_page_queue_remove/c_queue_remove_rec", "_mi_segment_page_abandon"])
